@@ -348,6 +348,7 @@ func TestCheck(t *testing.T) {
 	default:
 		schedPart(t, r, prop)
 	}
+	r.Finish()
 }
 
 func schedPart(t *testing.T, r *vk.Run, prop string) {
